@@ -886,3 +886,16 @@ Proof.
   - apply (C17_own_encoding_valid ex_sc ex_own _ S B E V N). vm_compute. reflexivity.
   - vm_compute. reflexivity.
 Qed.
+
+(* ---- the executable reading of [unk_of] that the check evaluates by vm_compute on every accepted input and compares with the
+        real _unknown_fields (Model/C17GapCv.v, stage "gap" of harness/props/c17.py): what it returns IS the u of the specification ---- *)
+From BP Require Import Model.C17GapCv Proofs.C17GapCvP.
+
+Theorem C17_unk_fn_sound : forall cd s u, unk_of_bytes cd s = Some u -> unk_of cd s u.
+Proof. exact unk_of_bytes_sound. Qed.
+Print Assumptions C17_unk_fn_sound.
+
+Example C17_unk_fn_nonvacuous :
+  unk_of_bytes (get_class ex_sc 11) [x08; x05; x0a; x02; x01; x02; x0b; x08; x09; x0c; x78; x01; x12; x01; x41]
+  = Some [x0a; x02; x01; x02; x0b; x08; x09; x0c; x78; x01].
+Proof. vm_compute. reflexivity. Qed.
